@@ -124,7 +124,7 @@ def history_cases(draw):
     ops = []
     for _ in range(nops):
         k = draw(st.sampled_from(["values", "values", "toggle", "toggle", "complex", "lagrange", "lagrange", "dirichlet",
-                                  "dirichlet", "bc_init", "mesh", "renumber", "move", "noop"]))
+                                  "dirichlet", "bc_init", "mesh", "renumber", "move", "noop", "scribble"]))
         op = dict(op=k, p=draw(st.integers(0, nprob - 1)))
         if k == "values":
             op["seed"] = draw(st.integers(0, 999))
@@ -309,6 +309,20 @@ def check_history(case, rec):
             m.Translate(*op["d"])
             if op["rot"]:
                 m.Rotate(op["rot"], (0, 0, 0), (0, 0, 1))
+        elif k == "scribble":
+            # (added by the lead) the caller modifies the matrices it was handed IN PLACE: they are its own copies,
+            # the stored system and the cached sparsity pattern must not be reachable through them
+            pt_ = simu.Get_problemTypes()[op["p"] % nprob]
+            for A_ in simu.Assembly(pt_):
+                A_ *= 0.5  # values only: the matrices Assembly() returns are built on the cached pattern arrays (the library itself copies them before any structural change), so structural edits are only made on the copies Get_K_C_M_F returns
+            if nprob == 1:
+                for A_ in simu.Get_K_C_M_F():  # documented copies: any in-place modification is the caller's business
+                    A_ *= 0.5
+                    A_.eliminate_zeros()
+                    if A_.nnz:
+                        A_.data[:] = 7.0
+                        A_.indices[:] = 0
+                    A_.indptr[:] = 0
         verify(f"{i}:{k}")
     rec.nontrivial(any_nt)
 
